@@ -99,3 +99,9 @@ Definition check_extend_M (t u : vlevel) (obs : res vlevel) : bool :=
   lres_eqb (M_extend val val_eqb t u) obs.
 
 Definition wf_obs (t : vlevel) : bool := wf val val_eqb (pred (lv_depth t)) t.
+
+(* a whole GO history replayed on the model state (tree + lazily refreshed cache); the final read goes
+   through the cache exactly as values_at_depth does *)
+Definition check_history_M (t0 : vlevel) (ops : list (op val)) (tf : vlevel) (cols : list (list val)) : bool :=
+  let st := go_step val val_eqb (fold_left (go_step val val_eqb) ops (mk_ihgo t0 None)) ORead in
+  level_eqb (g_tree st) tf && res_eqb (list_eqb (list_eqb val_eqb)) (go_blocks st) (Ok cols).
